@@ -7,7 +7,10 @@ reg("C16", "exploration", [P("color", "all"), P("color", "all", profile="verif-r
     P("fpcfg", "color", package="fpcfg", features="cfg_none", name="color-cfg-none"),
     P("fpcfg", "color", package="fpcfg", features="cfg_libm", name="color-cfg-libm"),
     P("fpcfg", "color", package="fpcfg", features="cfg_mm", name="color-cfg-mm")])
-reg("C19", "exploration", [P("prng", "all")])
+reg("C19", "exploration", [P("prng", "all"),
+    # the normalising distributions again in the float configurations whose reciprocal square root is not std's
+    P("fpcfg", "prng", package="fpcfg", features="cfg_libm", name="prng-cfg-libm"),
+    P("fpcfg", "prng", package="fpcfg", features="cfg_mm", name="prng-cfg-mm")])
 reg("C20", "exploration", [
     P("fpcfg", "all", package="fpcfg", features="cfg_none", name="cfg-none"),
     P("fpcfg", "all", package="fpcfg", features="cfg_libm", name="cfg-libm"),
